@@ -418,7 +418,29 @@ func TestSetTable(t *testing.T) {
 			}
 		}
 	}
-	ev.R.Space("sets of <=3 members from the hash-colliding universe: isEmpty, contains x universe, containsAll/containsAny/== x all pairs", count)
+	// the same members written in every other order (colliding members end up in insertion-order dependent places)
+	for _, a := range sets {
+		if len(a.Elems) < 2 {
+			continue
+		}
+		perms := [][]int{{1, 0, 2}, {2, 1, 0}, {1, 2, 0}, {2, 0, 1}, {0, 2, 1}}
+		for _, pm := range perms {
+			b := ir.Set()
+			for _, i := range pm {
+				if i < len(a.Elems) {
+					b.Elems = append(b.Elems, a.Elems[i])
+				}
+			}
+			for _, e := range []*ir.Expr{
+				ir.Bin(ir.OpEq, ir.Lit(a), ir.Lit(b)), ir.Bin(ir.OpEq, gen.LiteralExpr(a, false), gen.LiteralExpr(b, false)), ir.Bin(ir.OpNe, ir.Lit(b), gen.LiteralExpr(a, false)),
+				ir.Bin(ir.OpContainsAll, ir.Lit(a), ir.Lit(b)), ir.Bin(ir.OpContains, ir.SetE(ir.Lit(a)), ir.Lit(b)), ir.Bin(ir.OpEq, ir.Lit(ir.Rec(ir.F("s", a))), ir.Lit(ir.Rec(ir.F("s", b)))),
+			} {
+				count++
+				run(&Case{Expr: e, World: emptyWorld}, "set-table", true, fail)
+			}
+		}
+	}
+	ev.R.Space("sets of <=3 members from the hash-colliding universe: isEmpty, contains x universe, containsAll/containsAny/== x all pairs, == / containsAll / contains of the same members in every other order", count)
 }
 
 // TestEntityTable: attribute / tag / has / in / is on entities present, absent, present without the attribute.
@@ -458,6 +480,48 @@ func TestEntityTable(t *testing.T) {
 		}
 	}
 	ev.R.Space("has/./hasTag/getTag/in/is over present, absent and attribute-less entities, records and non-entities", count)
+}
+
+// TestHierarchyTable: `in` (entity, set of one / two / three entities) and `is .. in` over a store with two levels of
+// multi-parent ancestry, a diamond, a cycle and a parent that has no entry: every source x every target combination.
+func TestHierarchyTable(t *testing.T) {
+	if !ev.First() {
+		return
+	}
+	fail := tableFail(t)
+	e := func(id string) ir.Value { return ir.Ent("T1", id) }
+	w := gen.World{
+		Store: ir.Store{
+			{UID: ir.Ent("T0", "alice"), Parents: []ir.Value{e("teamA"), e("teamB")}},
+			{UID: e("teamA"), Parents: []ir.Value{e("deptA"), e("guild")}},
+			{UID: e("teamB"), Parents: []ir.Value{e("deptB"), e("guild")}},
+			{UID: e("deptA"), Parents: []ir.Value{e("org")}},
+			{UID: e("deptB"), Parents: []ir.Value{e("org2"), e("ghost")}},
+			{UID: e("guild"), Parents: []ir.Value{e("org"), e("teamA")}}, // cycle teamA -> guild -> teamA
+			{UID: e("org")},
+			{UID: e("org2")},
+		},
+		Req: ir.Request{Principal: ir.Ent("T0", "alice"), Action: ir.Ent("Action", "view"), Resource: e("org"), Context: ir.Rec()},
+	}
+	nodes := []ir.Value{ir.Ent("T0", "alice"), e("teamA"), e("teamB"), e("deptA"), e("deptB"), e("guild"), e("org"), e("org2"), e("ghost"), e("nowhere")}
+	count := 0
+	for _, s := range nodes {
+		for i, a := range nodes {
+			count += 2
+			run(&Case{Expr: ir.Bin(ir.OpIn, ir.Lit(s), ir.Lit(a)), World: w}, "hierarchy-table", true, fail)
+			run(&Case{Expr: ir.IsIn(ir.Lit(s), s.T, ir.Lit(a)), World: w}, "hierarchy-table", true, fail)
+			for j, b := range nodes {
+				count += 2
+				run(&Case{Expr: ir.Bin(ir.OpIn, ir.Lit(s), ir.SetE(ir.Lit(a), ir.Lit(b))), World: w}, "hierarchy-table", true, fail)
+				run(&Case{Expr: ir.IsIn(ir.Lit(s), "T1", ir.Lit(ir.Set(a, b))), World: w}, "hierarchy-table", true, fail)
+				if (i+j)%3 == 0 {
+					count++
+					run(&Case{Expr: ir.Bin(ir.OpIn, ir.Lit(s), ir.Lit(ir.Set(e("nowhere"), a, b))), World: w}, "hierarchy-table", true, fail)
+				}
+			}
+		}
+	}
+	ev.R.Space("in / is-in over a two-level multi-parent store (diamond, cycle, dangling parent): every source x target, x target pairs", count)
 }
 
 // TestConstructorTable: decimal() ip() datetime() duration() on valid, boundary and malformed literals.
